@@ -108,6 +108,13 @@ func collectDeclDependencies(d Decl) []string {
 			collectTypeRefs(m.Type, add)
 		}
 	case *FunctionDecl:
+		// Attribute arguments are constant expressions that may name module-scope
+		// constants declared later (e.g. @workgroup_size(WG)).
+		for _, a := range d.Attributes {
+			for _, arg := range a.Args {
+				collectExprDeps(arg, nil, add)
+			}
+		}
 		for _, p := range d.Params {
 			collectTypeRefs(p.Type, add)
 		}
